@@ -152,6 +152,22 @@ class SArray:
             if p[0] == 'slice':
                 _, lo, hi, step = p
                 if isinstance(step, int) and step == 1:
+                    d = ops_binop('-', hi, lo)
+                    if isinstance(d, SInt) and z3.is_add(d.z) and not cur().family:
+                        # let-name a compound extent (keeps later products / divisions in terms of atoms)
+                        c = cur()
+                        nz = c.fresh_int('dim')
+                        c.assume_raw(nz == d.z)
+                        c.defs[nz.get_id()] = (nz, d.z)
+                        if c.known_fast(d.z >= 1):
+                            c.pos_ids.add(nz.get_id())
+                            c.nonneg_ids.add(nz.get_id())
+                        elif c.known_fast(d.z >= 0):
+                            c.nonneg_ids.add(nz.get_id())
+                        d = SInt(nz)
+                    new_shape.append(d)
+                    continue
+                if False:
                     new_shape.append(ops_binop('-', hi, lo))
                 else:
                     d = ops_binop('-', hi, lo)
